@@ -20,6 +20,7 @@ R5  composite components: every container of sub-components evaluated in calc_va
     gradient use the same coefficient
 R6  layering: atom::apply_force() is called only from the atom-group layer (atom_group::apply_colvar_force,
     group_force_object), which rotates forces back to the laboratory frame and adds the forces on the fitting group
+R10 fit gradients are switched off only by components whose value is stationary under the fit (squared deviations)
 R9  a quadratic energy and the force terms next to it share the prefactor
 R8  cached group totals: where a function refreshes a per-atom quantity from the engine (atom::update_mass/charge), every
     exit passes through the function that recomputes the group total summed from that quantity (total_mass,
@@ -1011,7 +1012,53 @@ def lvalue_writes_target(f, w):
     return w
 
 
+# ------------------------------------------------------------------------------------------------ R10
+def r10(F, rep):
+    rep.rule("C01-R10", "fit gradients are switched off only where they vanish: a component that calls "
+                        "disable(f_ag_fit_gradients) on a group it has rotated onto reference positions reads that group's "
+                        "coordinates in calc_value() only inside the squared deviation from the reference, "
+                        "(pos - ref_pos[..]).norm2(): that sum is what the fit minimises, so its derivative with respect to "
+                        "the rotation is zero; any other function of the fitted coordinates (a projection on a vector) "
+                        "depends on the rotation to first order and needs the fit term in its forces")
+    n = 0
+    for f in F.funcs.values():
+        if "/src/" not in f.file or not f.cls or f.cls not in F.subclasses(CVC, strict=True):
+            continue
+        for c in X.calls(f):
+            if X.callee_name(c) != "disable" or not X.call_args(c) or "f_ag_fit_gradients" not in X.key(X.call_args(c)[0], f):
+                continue
+            r = X.receiver(c)
+            if r is None:
+                continue
+            gk = X.re_strip(X.key(r, f))
+            n += 1
+            own = F.find_method(f.cls, "calc_value")
+            if not own:
+                raise AnalysisBroken("C01-R10: %s::calc_value not found" % f.cls)
+            bad = []
+            for g in closure(F, f.cls, "calc_value"):
+                for m in g.walk():
+                    if m["k"] != "MemberExpr" or m.get("n") != "pos" or m.get("dk") != "Field":
+                        continue
+                    base = X.re_strip(X.key(m, g))
+                    if gk.replace("op->(", "").rstrip(")") not in base and gk not in base:
+                        continue
+                    inside = False
+                    for a in g.ancestors(m):
+                        if a["k"] == "CXXMemberCallExpr" and X.callee_name(a) == "norm2" and X.receiver(a) is not None and "ref_pos" in X.key(X.receiver(a), g):
+                            inside = True
+                            break
+                    if not inside:
+                        bad.append("%s:%s" % (g.q, m.get("l")))
+            rep.add("C01-R10", "%s|%s" % (f.cls, gk), f.loc(c), "%s switches off the fit gradients of `%s`; calc_value() uses its fitted coordinates %s" % (
+                f.q, gk, "only inside (pos - ref_pos).norm2()" if not bad else "OUTSIDE a squared deviation at " + ", ".join(bad[:3])), not bad,
+                detail="the rotation (and centring) of the fit depends on every atom: without the fit term the applied forces are not the derivative of the value", func=f.q)
+    if n < 1:
+        raise AnalysisBroken("C01-R10: no component switches off fit gradients (rmsd expected)")
+
+
 def run(F, rep, tier):
+    r10(F, rep)
     r9(F, rep)
     r1(F, rep)
     r2(F, rep)
